@@ -146,6 +146,15 @@ def run_one(ctx, rng, fn, kind, impl, mode, ml, mi, calls, cuts, order, seed):
                 t2 = j2.get(root)
                 conv = (lambda it: [(env.km.ik(k), 0) for k in it]) if setlike else (lambda it: [(env.km.ik(k), env.vm.iv(v)) for k, v in it])
                 try:
+                    # iterating an unsound C tree can take the process down: ask _check() first and do not
+                    # walk a tree it rejects (except the F16 shape, whose exact damage the model predicts)
+                    try:
+                        t2._check()
+                    except AssertionError as e:
+                        ctx.cov.setdefault("f16_check_messages", {}).setdefault(str(e)[:80], 0)
+                        ctx.cov["f16_check_messages"][str(e)[:80]] += 1
+                        if not (f16 and "next pointer is damaged" in str(e)):
+                            raise RuntimeError("_check: " + str(e)[:60])
                     chain = conv(list(t2) if setlike else list(t2.items()))
                     descent = []
                     wantitems = [(k, 0) for k, _ in ref.items()] if setlike else ref.items()
@@ -155,7 +164,7 @@ def run_one(ctx, rng, fn, kind, impl, mode, ml, mi, calls, cuts, order, seed):
                             descent.append((k, 0 if setlike else env.vm.iv(t2[kk])))
                     inv = walk_invariants(env, t2, None, None)
                 except Exception as e:  # noqa
-                    chain, descent, inv = None, None, ["reader-raised-" + type(e).__name__]
+                    chain, descent, inv = None, None, ["reader-raised-" + type(e).__name__ + (":" + str(e)[:70] if isinstance(e, RuntimeError) else "")]
                 wantitems = [(k, 0) for k, _ in ref.items()] if setlike else ref.items()
                 if chain != wantitems or descent != wantitems or inv:
                     sig = "%s:commit-reload:%s" % (impl, "embedded-leaf-below-root" if f16 else "reader-differs")
@@ -237,8 +246,28 @@ def run(ctx):
                 cuts[i] = "commit"
             elif r < 0.16:
                 cuts[i] = "abort"
+        if rng.random() < 0.2:
+            # grow to several leaves, commit, shrink back to one leaf, commit, touch it, commit:
+            # the stored single leaf must then be referenced, not embedded
+            setl = kind == "TreeSet"
+            lo = 1 if mode == "none-int" else 0
+            keys = rng.sample(range(lo, u), min(u - lo, rng.randint(ml + 1, 3 * ml + 2)))
+            keep = rng.sample(keys, rng.randint(1, min(ml, len(keys))))
+            ins = (lambda k: ("add", k)) if setl else (lambda k: ("set", k, rng.randrange(4)))
+            rem = (lambda k: ("remove", k)) if setl else (lambda k: ("del", k))
+            calls, cuts = [], {}
+            calls += [ins(k) for k in keys]
+            cuts[len(calls) - 1] = "commit"
+            calls += [rem(k) for k in keys if k not in keep]
+            cuts[len(calls) - 1] = "commit"
+            for _ in range(rng.randint(1, 4)):
+                calls.append(rng.choice([ins(rng.choice(keep)), ins(rng.randrange(lo, u)), ("len",)]))
+                if rng.random() < 0.5:
+                    cuts[len(calls) - 1] = "commit"
+            calls.append(("len",))
         cuts[len(calls) - 1] = "commit"
         order = rng.choice(["lifo", "lifo", "fifo", "reversed"])
+        ctx.progress({"family": fn, "kind": kind, "mode": mode, "sizes": [ml, mi], "calls": calls, "cuts": {str(k): v for k, v in cuts.items()}, "order": order})
         for impl in ("C", "Py"):
             steps, nontriv = run_one(ctx, rng, fn, kind, impl, mode, ml, mi, calls, cuts, order, it)
             if steps is None:
